@@ -22,6 +22,12 @@ def _renamable(fn):
     """names that may be renamed inside fn: stored locals and nested def names
     (parameters, globals, nonlocals, imports are fixed)"""
     fixed = {a.arg for a in fn.args.posonlyargs + fn.args.args + fn.args.kwonlyargs}
+    params = set()
+    if fn.name.startswith("_") and fn.name != "__init__":
+        # the parameters of a private function (or of a protocol method that its framework calls positionally) are
+        # bound names like any local; call sites that pass them by keyword are renamed along (see normalise)
+        params = {a.arg for a in fn.args.posonlyargs + fn.args.args if a.arg not in ("self", "cls")}
+        fixed -= params
     if fn.args.vararg:
         fixed.add(fn.args.vararg.arg)
     if fn.args.kwarg:
@@ -46,7 +52,7 @@ def _renamable(fn):
         elif isinstance(n, (ast.Import, ast.ImportFrom)):
             for a in n.names:
                 fixed.add((a.asname or a.name).split(".")[0])
-    return names - fixed
+    return (names | params) - fixed
 
 
 def _match(a, b, ra, rb, fwd, bwd):
@@ -56,6 +62,11 @@ def _match(a, b, ra, rb, fwd, bwd):
     if isinstance(a, ast.AST):
         if isinstance(a, ast.Name):
             return _ident(a.id, b.id, ra, rb, fwd, bwd)
+        if isinstance(a, ast.arg):
+            return _ident(a.arg, b.arg, ra, rb, fwd, bwd)  # annotations are comments
+        if isinstance(a, ast.keyword) and a.arg is not None and b.arg is not None and (a.arg in ra or b.arg in rb):
+            # a recursive call that passes a (renamed) parameter of this very function by keyword
+            return _ident(a.arg, b.arg, ra, rb, fwd, bwd) and _match(a.value, b.value, ra, rb, fwd, bwd)
         for (fa, va), (fb, vb) in zip(ast.iter_fields(a), ast.iter_fields(b)):
             if fa in ("lineno", "col_offset", "end_lineno", "end_col_offset", "type_comment"):
                 continue
@@ -101,6 +112,8 @@ def _apply(fn, mapping):
             n.name = mapping[n.name]
         elif isinstance(n, ast.ExceptHandler) and n.name in mapping:
             n.name = mapping[n.name]
+        elif isinstance(n, ast.arg) and n.arg in mapping:
+            n.arg = mapping[n.arg]
 
 
 def _top_functions(tree):
@@ -138,6 +151,15 @@ def normalise(tree, relpath):
         if _match(f, g, _renamable(f), _renamable(g), fwd, bwd):
             mapping = {k: v for k, v in fwd.items() if k != v}
             if mapping:
+                pnames = {a.arg for a in f.args.posonlyargs + f.args.args + f.args.kwonlyargs}
+                pmap = {k: v for k, v in mapping.items() if k in pnames}
                 _apply(f, mapping)
+                if pmap:
+                    # call sites in this module that pass the renamed parameters by keyword
+                    for c in ast.walk(tree):
+                        if isinstance(c, ast.Call) and (getattr(c.func, "attr", None) == f.name or getattr(c.func, "id", None) == f.name or (isinstance(c.func, ast.Attribute) and c.func.attr.endswith(f.name.lstrip("_")) and f.name.startswith("__"))):
+                            for kw in c.keywords:
+                                if kw.arg in pmap:
+                                    kw.arg = pmap[kw.arg]
                 n += 1
     return n
